@@ -357,8 +357,63 @@ def _run_facade(res, case):
         res.label("facade-rebuilt")
 
 
+_FRESH = r"""
+import asyncio, sys
+import geckolib.config as gc          # as a client process does: the library's module state is whatever the import left
+
+async def main(active, n):
+    woke = []
+    async def sleeper(i):
+        await gc.config_sleep(600.0)
+        woke.append(i)
+    tasks = [asyncio.ensure_future(sleeper(i)) for i in range(n)]
+    for _ in range(5):
+        await asyncio.sleep(0)
+    gc.set_config_mode(active)              # the very first switch of the process
+    for _ in range(200):                     # loop iterations, not seconds
+        await asyncio.sleep(0)
+    table = gc._GeckoActiveConfig() if active else gc._GeckoIdleConfig()
+    wrong = [m for m in dir(gc._GeckoConfig) if m.isupper() and getattr(gc.GeckoConfig, m) != getattr(type(table), m)]
+    for t in tasks:
+        t.cancel()
+    await asyncio.gather(*tasks, return_exceptions=True)
+    print("RESULT", len(woke), n, ",".join(wrong))
+
+asyncio.run(main(sys.argv[1] == "1", int(sys.argv[2])))
+"""
+
+
+def _run_fresh(res, case):
+    """the first switch in a fresh interpreter (nothing reset by a harness, asyncio.run's own loop): sleepers that went to sleep
+    before it must wake within a few loop iterations, and the table must be the chosen one"""
+    import subprocess
+    import sys
+
+    active, n = bool(case["active"]), 1 + int(case["n"]) % 5
+    p = subprocess.run([sys.executable, "-c", _FRESH, "1" if active else "0", str(n)], capture_output=True, text=True, timeout=120)
+    line = [ln for ln in p.stdout.splitlines() if ln.startswith("RESULT")]
+    if p.returncode != 0 or not line:
+        res.fail("C17|fresh-process|raises", f"first switch in a fresh process failed: rc={p.returncode} {p.stderr.strip().splitlines()[-1:] }")
+        return
+    _, woke, total, wrong = (line[0].split(" ") + [""])[:4]
+    if int(woke) != int(total):
+        res.fail("C17|fresh-process|not-woken-by-switch", f"{int(total) - int(woke)} of {total} sleepers that were asleep before the process's first switch were not woken by it")
+    if wrong:
+        res.fail("C17|fresh-process|table-wrong", f"after the first switch to {'active' if active else 'idle'}: {wrong} differ from the chosen table")
+    res.nontrivial = True
+    res.label("fresh-process-first-switch")
+
+
+def enumerated(tier):
+    cases = [{"k": "fresh", "active": a, "n": n} for a in (True, False) for n in (0, 2)]
+    return len(cases), lambda i: cases[i]
+
+
 def run_case(case) -> Result:
     res = Result()
+    if case.get("k") == "fresh":
+        _run_fresh(res, case)
+        return res
     if case.get("k") == "hist":
         _run_hist(res, case)
     elif case.get("k") == "facade":
